@@ -183,7 +183,13 @@ func GenProgram(r *core.Rand, ks *KeySpace, tagPrefix string, o GenOpts) []Op {
 		k := ks.Pick(r)
 		v := val()
 		if o.BigValues && r.Chance(5) && len(v) >= 6 { // (an empty value has no unique tag: padding it would create equal values)
+			// boundary sizes of the log format: a record payload of exactly the maximum size (+-1), or a
+			// fragmented entry whose value-length field plus value is an exact multiple of the record size (+-1),
+			// so that its last fragment is full
 			l := 32768 - 17 - len(k) + r.Range(-1, 1)
+			if r.Chance(40) {
+				l = 32768*r.Range(1, 2) - 4 + r.Range(-1, 1)
+			}
 			for len(v) < l {
 				v = append(v, byte('B'+len(v)%23))
 			}
